@@ -56,3 +56,22 @@ Proof. vm_compute. reflexivity. Qed.
 Theorem C02_source_apply_is_gain_src_plus_offset m c x : gen_apply m c x == m * x + c.
 Proof. exact (tie_apply m c x). Qed.
 Print Assumptions C02_source_apply_is_gain_src_plus_offset.
+
+(* ---- tie to the source (gen/Pipeline.v, regenerated on every run by translate/pipeline.py from kernel_model.RefSpaceModel / SrcSpaceModel,
+        fuse._process_block / process, compare.get_block_sums) *)
+From HV Require Import Kernel.Flow Tie.PipelineTie.
+From HVgen Require Import Pipeline.
+Local Open Scope Q_scope.
+(* the CURRENT source: the source is brought to the reference grid (or the reference to the source grid) with the kernel the resolution rule
+   picks, fitted there by the model's fitter with the configured kernel shape, the first two parameter bands are brought to the source grid,
+   applied to the ORIGINAL source block by KernelModel.apply (C02_source_apply_is_gain_src_plus_offset) and that result is what is written *)
+Theorem C02_source_pipeline_flow mp a b :
+  Pipeline.translation_failed = false /\ gen_get_resampling a b = get_resampling a b /\
+  (gen_ref_apply_mask mp = ref_apply_mask mp /\ gen_src_fit_mask mp = src_fit_mask mp) /\
+  (gen_fit_dispatch_ok = true /\ gen_fit_grid_check_ok = true /\ gen_ref_fit_ok = true /\ gen_ref_apply_params_ok = true /\
+   gen_src_fit_ok = true /\ gen_src_fit_copies_source = true /\ gen_block_flow_ok = true /\ gen_model_choice_ok = true /\
+   gen_compare_reproject_ok = true).
+Proof. exact (pipeline_tied mp a b). Qed.
+Theorem C02_resampling_rule a b : (get_resampling a b = RDown <-> a <= b) /\ (get_resampling a b = RUp <-> b < a).
+Proof. exact (get_resampling_spec a b). Qed.
+Print Assumptions C02_source_pipeline_flow.
